@@ -27,6 +27,8 @@ RULES_DOC["R5"] = "unit_unmap_thread clears exactly one entry of the bucket on e
 RULES_DOC["X4"] = common.X4_DOC
 RULES_DOC["R6"] = "= C11.R4: ABT_thread_yield_to removes the target's unit from the target's own pool (the pool that holds the unit), before switching to it"
 RULES_DOC["R7"] = "the legacy batch-pop emulation writes handles only at indices below the caller's array length (the loop over the caller's array is bounded by `i < max`, never `<=`), and reports exactly the number it wrote"
+RULES_DOC["R11"] = "every ABTI_pool_push whose pool argument is a local copy of ABTI_thread::p_pool: no call that may write p_pool (request handling -> migration) lies between the copy and the push, so the unit handle and the pool it goes to belong together"
+RULES_DOC["R10"] = "who may call ABTI_unit_get_thread_from_builtin_unit: the built-in pool implementations and code governed by a test of ABTI_unit_is_builtin(); every pool-generic routine (the ABTI_pool_* wrappers that also serve user-defined pools) converts through ABTI_unit_get_thread"
 RULES_DOC["R9"] = "= C18.R6: a step that can fail because a user pool's create_unit fails (re-associating a unit on revive / migrate) runs before the descriptor is modified: on the error return the unit is still TERMINATED, mapped to its old unit and can be revived again"
 RULES_DOC["R8"] = "= C07.R7: the batch push hands the pool the unit each work unit has after it was associated with that pool (compaction with one counter, the slot written after the association)"
 RULES_DOC.update({
@@ -424,6 +426,49 @@ def ctrldep_closure(F, bid):
     return ctrldep.closure(F, bid)
 
 
+def rule_R10(P, rep):
+    """Who may take a unit for a work-unit pointer without looking at its kind: the built-in pool implementations
+    (every unit they are handed is their own) and code that has just tested ABTI_unit_is_builtin()."""
+    from abtverif import ctrldep
+    BUILTIN = ("src/pool/fifo.c", "src/pool/fifo_wait.c", "src/pool/randws.c", "src/pool/thread_queue.h")
+    n = 0
+    for F in sorted(P.functions.values(), key=lambda f: (f.file, f.line)):
+        for _b, i in F.calls("ABTI_unit_get_thread_from_builtin_unit"):
+            n += 1
+            ok = F.file in BUILTIN
+            if not ok:
+                ok = any("ABTI_unit_is_builtin(" in lab and val is not False for lab, val, _a in ctrldep.conditions(F, i))
+            rep.ob("R10", "%s converts a unit with the built-in shortcut only where the unit is known to be built-in" % F.name, ok,
+                   "%s may be handed a unit of a user-defined pool (an opaque user value, not a tagged descriptor pointer): it "
+                   "must go through ABTI_unit_get_thread" % F.name, loc=F.loc(i), site="builtin-unit/%s" % F.name)
+    rep.need(n >= 10, "only %d uses of the built-in unit conversion" % n)
+
+
+def rule_R11(P, rep):
+    """A unit and the pool it is pushed to belong together: a pool pointer copied from ABTI_thread::p_pool into a local is
+    not used for a push after a call that may re-associate the unit (request handling can migrate it: the unit handle then
+    belongs to the new pool, and a user-defined pool is handed a unit it never created)."""
+    n = 0
+    writers = P.may_write("ABTI_thread", "p_pool")
+    for F in sorted(P.functions.values(), key=lambda f: (f.file, f.line)):
+        for _b, i in F.calls({"ABTI_pool_push", "ABTI_pool_push_many"}):
+            n += 1
+            a0 = F.nodes[i]["a"][0]
+            an = F.nodes[F.strip(a0)]
+            stale = []
+            if an.get("k") == "ref" and an.get("dk") == "var":
+                d = canon.reaching_def(F, an["n"], i)
+                if isinstance(d, int) and F.field_of(d) == ("ABTI_thread", "p_pool"):
+                    for _b2, c in F.calls():
+                        G = P.resolve_call(F, F.nodes[c]) if F.nodes[c].get("fn") else None
+                        if G is not None and G.key in writers and c != i and cfg.can_reach(F, d, c) and cfg.can_reach(F, c, i):
+                            stale.append("%s at %s" % (F.nodes[c]["fn"], F.loc(c)))
+            rep.ob("R11", "%s pushes to the pool the unit is associated with at the time of the push" % F.name, not stale,
+                   "the pool was copied from ABTI_thread::p_pool before %s, which may re-associate the unit; the push then hands "
+                   "the new pool's unit to the old pool" % ", ".join(stale), loc=F.loc(i), site="push-pool/%s" % F.name)
+    rep.need(n >= 5, "only %d pool pushes found" % n)
+
+
 def run(P, rep, tier):
     common.rule_X8(P, rep)
     common.rule_X7(P, rep, records=('unit_to_thread',))
@@ -440,6 +485,8 @@ def run(P, rep, tier):
     common.borrow(rep, P, C07.rule_R7, "R8")
     from . import c18_commit
     common.borrow(rep, P, c18_commit.rule_R6, "R9")
+    rule_R10(P, rep)
+    rule_R11(P, rep)
     sub = type(rep)(rep.prop, rep.tier, rep.variant)
     C03.rule_R5(P, sub)
     for o in sub.obligations:
